@@ -44,7 +44,7 @@ def required(tier):
     cover = [f"cls:{c}" for c in ALL if c != "HilbertEOF"] + [f"layout:{l}" for l in LAYOUTS] + [f"sched:{s}" for s in SCHEDS]
     cover += ["mode:lazy", "mode:eager"] + [f"decided:{c}" for c in ALL if c != "HilbertEOF"]
     cover += ["cross:use_pca", "cross:use_pca:single", "cross:use_pca:samples", "nans:eager_dask"]
-    return {"mon": ["sched_entries_compute", "lazy_fits_observed", "behaviour_transform_compared"], "cover": cover, "max_refused_share": 0.6}
+    return {"mon": ["sched_entries_compute", "lazy_fits_observed", "behaviour_transform_compared", "input_source_reads"], "cover": cover, "max_refused_share": 0.6}
 
 
 def _case(rng, cls=None, layout=None, sched=None, mode=None, solver=None):
@@ -168,6 +168,30 @@ def _chunks(case, da):
     if lay == "elementwise":
         ch = {d: 1 for d in da.dims}
     return ch
+
+
+class _Source:
+    """array-like 'file' behind the dask input: every chunk that is really loaded goes through __getitem__"""
+
+    def __init__(self, a):
+        self.a = np.asarray(a)
+        self.shape, self.dtype, self.ndim = self.a.shape, self.a.dtype, self.a.ndim
+        self.reads = []
+
+    def __getitem__(self, idx):
+        self.reads.append(1)  # list.append is atomic: worker threads may load chunks concurrently
+        return self.a[idx]
+
+
+def _lazy(da_, chunks):
+    """the same DataArray backed by a dask array that loads its chunks from a counting source"""
+    import dask.array as dsk
+    import xarray as xr
+
+    src = _Source(da_.values)
+    ch = tuple(chunks.get(d, -1) for d in da_.dims)
+    arr = dsk.from_array(src, chunks=ch, lock=False, meta=np.empty((0,) * src.ndim, dtype=src.dtype))
+    return xr.DataArray(arr, dims=da_.dims, coords=da_.coords, name=da_.name, attrs=da_.attrs), src
 
 
 def _kw(case, compute):
@@ -339,8 +363,8 @@ def run_case(case, obs):
     workers = {"sync": 1, "threads1": 1, "threads2": 2, "threads4": 4, "threads16": 16}[sched]
     S = dasksched.Sched("sync" if sched == "sync" else "threads", workers, delay_p=0.3 if case["delay"] else 0.0, seed=case["dseed"]).install()
     try:
-        Xd = X.chunk(_chunks(case, X))
-        Yd = Y.chunk({"time": _chunks(case, X)["time"], "x": 1 if layout == "elementwise" else (-1 if layout in ("single", "samples") else 2)})
+        Xd, srcX = _lazy(X, _chunks(case, X))
+        Yd, srcY = _lazy(Y, {"time": _chunks(case, X)["time"], "x": 1 if layout == "elementwise" else (-1 if layout in ("single", "samples") else 2)})
         tags = {"layout": layout, "sched": sched}
         try:
             if mode == "lazy":
@@ -420,6 +444,21 @@ def run_case(case, obs):
                 tags=dict(tags, symptom="input_data_materialised"),
             )
         S.phase = "after"
+        if cls != "OPA":
+            # 'dask-backed' is not enough: a persisted / cached copy is still typed as a dask array.  Evaluating the
+            # stored input must go back to the source the user's array loads its chunks from.
+            for k_, v_ in got.items():
+                if _is_input(k_) and xu.is_dask(v_):
+                    src = srcY if k_.endswith("2") else srcX
+                    del src.reads[:]
+                    np.asarray(v_.values)
+                    obs.count("input_source_reads", len(src.reads))
+                    obs.check(
+                        "stored_input_loads_from_source",
+                        len(src.reads) > 0,
+                        f"evaluating model.data['{k_}'] read no chunk of the user's source array: the model holds a materialised copy",
+                        tags=dict(tags, symptom="input_data_materialised", entry=k_, how="no_source_reads"),
+                    )
         path_dependent = False
         if is_rot and "rotation_matrix" in got and "rotation_matrix" in ref:
             Rg = np.asarray(got["rotation_matrix"].values)
